@@ -68,6 +68,12 @@ Section Sem.
     with IRPost_mut := Minimality for IRPost Sort Prop.
   Combined Scheme IR_mutind from IRPre_mut, IRPost_mut.
 
+  (* a call returns only from the end of the exit block *)
+  Lemma exec_from_exit g n a b : exec_from g n a b -> exists x, f_exit (get_fn p g) = Some x.
+  Proof. induction 1; eauto. Qed.
+  Lemma exec_fun_exit g s0 s1 : exec_fun g s0 s1 -> exists x, f_exit (get_fn p g) = Some x.
+  Proof. intros H. inversion H; subst. eapply exec_from_exit; eauto. Qed.
+
   (* ------------------------------------------------------------ frame properties *)
   Lemma assign_outs_other outs : forall fouts a s1 k, ~ In k outs -> assign_outs a outs fouts s1 k = a k.
   Proof.
